@@ -6,7 +6,12 @@ RULE = ("per case: rule set spot|futures, 1-3 instruments on one connection; per
         "= venue book at an id chosen among cut points, cut+-1, 0, last id(+1) or any event id; delivery = the in-order stream started early / at the covering "
         "message / late / anywhere, 45 % unperturbed, else 1-2 of {drop, duplicate adjacent, duplicate later, swap neighbours, replay an old prefix}; 12 % of the "
         "cases add 1-6 non-genuine messages with arbitrary ids around the snapshot id; 3 % messages for a never-subscribed symbol; instruments' deliveries "
-        "interleaved at random; 4 % of the cases have a missing / non-snapshot initial event (init error). Every snapshot and message is JSON parsed by the real "
+        "interleaved at random; 4 % of the cases have a missing / non-snapshot initial event (init error). On top of the N cases, N/4 cases (ids p…) from an "
+        "independent random stream have DEPTH-LIMITED REST snapshots as the code's fetchers request them (`depth k n`, n in 1..4 with <= 6 prices per side; 15 % of "
+        "the instruments of such a case keep the full depth): the snapshot is the venue's book at its id cut to the best n levels per side; in these cases harness and "
+        "model also print, per instrument with a declared depth, one `lv<k>:<side>:<price> <amount>` line per price of the venue, and the oracle states those lines "
+        "for exactly the prices the snapshot covers, an admitted update wrote or the venue changed since the snapshot id (and the whole-book line only when the limit "
+        "cuts nothing). Every snapshot and message is JSON parsed by the real "
         "serde types, the transformer is built by the real ExchangeTransformer::init, every message goes through the real Transformer::transform (and a "
         "stand-alone real *Sequencer::validate_sequence whose public fields are printed), delivered events through the real OrderBook::update, and the whole "
         "output list through the real with_termination_on_error(|e| e.is_terminal()). thorough additionally enumerates, for both rule sets, every sequence of "
@@ -16,6 +21,16 @@ ASSUMPTIONS = [
     "the venue's contract (trusted, DESIGN C06): delivered depth messages are genuine - each states, for some id range (lo,hi], the amount at hi of every price "
     "touched in the range (u=hi; spot U=lo+1; futures pu=lo and lo < U <= first event id in the range) - and the REST snapshot is the venue's book as of its "
     "lastUpdateId; which messages arrive, how often and in which order is unrestricted. The sequencer theorems (trichotomy, admitted_chain) need no assumption at all",
+    "snapshot depth: the REST snapshot holds the best 100 levels per side only - the code's fetchers request `&limit=100` (spot/l2.rs:54, futures/l2.rs:57; the harness "
+    "bypasses the HTTP fetch and feeds snapshots of declared depth 1-4 over <= 6 prices instead). The full-book reading of 'the REST snapshot is the venue's book' "
+    "(GenuineSnapshot; hypothesis of book_is_truth, book_is_truth_exact, no_false_alarm, connection_start and of everything derived from them) is therefore FALSE in the "
+    "real wiring for an instrument whose book is deeper than 100 levels on a side. The reading that holds is per price level (GenuineSnapshotOn, "
+    "truncated_snapshot_genuine_on): 'the book equals the exchange's book as of the sequence it reports' is claimed, and proved (book_is_truth_on, "
+    "connection_book_is_truth_on), at every price that the snapshot covers (all prices of a side on which it lists fewer than `limit` levels, otherwise the prices at "
+    "least as good as its worst level of that side), that an admitted update has written since, or that the venue changed since the snapshot id; at any other price "
+    "nothing is claimed and the local book can differ silently (truncated_snapshot_witness: the venue deletes its best bid, the local book shows an empty bid side "
+    "while the venue's best bid is the uncovered second level). This is inherent in the venue's documented procedure (a depth-limited snapshot does not reveal levels "
+    "outside it until they change); the full-depth theorems are the instance 'every price covered' and apply as they stand to books of at most 100 levels per side",
     "no_false_alarm (futures): the snapshot's lastUpdateId is the id of an event of the venue and the delivery contains the message whose range contains it "
     "(c0 < s <= u); a futures delivery that starts with the message *after* a snapshot taken exactly at a message boundary (pu = s) is rejected by the "
     "published first-message rule U <= s <= u itself - this is the venue's rule, not a deviation of the code",
@@ -41,6 +56,9 @@ def signature(ops, k, key, impl_line, spec_line):
         clause = "false_alarm_or_missing_error" if want == "1" else "break_not_reported"
     elif key.startswith("book") or key.startswith("fbook"):
         clause = "book_differs_from_venue_at_reported_sequence"
+    elif key.startswith("lv") or key.startswith("flv"):
+        # depth-limited snapshot: the per-level claim at a covered / written / venue-changed price
+        clause = "level_differs_from_venue_at_reported_sequence"
     else:
         clause = key
     return f"clause={clause} rules={rules} op={op[0]}"
@@ -68,7 +86,16 @@ LEVEL_TEXT = ("Proof. Lean theorems over the sequencing model composed with C05'
               "no state change), told_iff (a live connection ends exactly on a subscribed, non-stale, non-extending message), connection_start + "
               "connection_book_is_truth (several instruments interleaved on one connection: every book is its own venue's book at the sequence it reports, after any "
               "delivery), stream_view / terminate_spec (per-message view = whole output through with_termination_on_error; nothing after the first terminal error is "
-              "delivered), spec_step_agrees and isGenuine_iff (the executable spec the oracle runs is the rule / the genuineness the theorems speak about). Unbounded "
+              "delivered), spec_step_agrees and isGenuine_iff (the executable spec the oracle runs is the rule / the genuineness the theorems speak about); after the first "
+              "review: book_is_truth' / book_is_truth_admitted / connection_book_is_truth' (only non-stale / only admitted messages need be genuine; stale_junk_witness), "
+              "no_false_alarm_conn (+ _no_error, _books: several instruments interleaved), futures_boundary_snapshot_witness; after the review of the sub-checks, for REST "
+              "snapshots of LIMITED depth (the code asks for limit=100): truncated_snapshot_genuine_on (the venue's book cut to its best n levels per side is right on "
+              "the prices coveredBy accepts), book_is_truth_on / book_is_truth_on_genuine (for every delivery processed to the first error: strictly ordered book reporting "
+              "the sequencer's last id and holding, at every price the snapshot covers OR an admitted update wrote OR the venue changed since the snapshot id, exactly the "
+              "venue's amount as of the reported sequence; an early stop is a terminal error), admittedBy_is_admitted (those admitted updates are admitted_chain's), "
+              "connection_start_on / connection_book_is_truth_on / connSyncedOn_reading (the same for several interleaved instruments), truncated_snapshot_witness (at a "
+              "price outside the three sets the book can differ silently: the full-depth statement is false with a depth-limited snapshot), and the full-depth theorems as "
+              "the instance 'every price covered' (genuineSnapshot_is_on_everything, book_is_truth_is_the_full_depth_case, connSynced_is_on_everything). Unbounded "
               "in venue size, ids, delivery length, number of instruments. The model is tied to the code on every run through the real serde types, init, transform, "
               "validate_sequence, OrderBook::update and with_termination_on_error; the oracle recomputes the book from the simulated venue, never from the messages.")
 LEVEL_NOTE = ("Trusted: Lean kernel; axioms propext/Classical.choice/Quot.sound only; the hand-written model (one definition per Rust function, parameterised by the rule "
@@ -76,8 +103,12 @@ LEVEL_NOTE = ("Trusted: Lean kernel; axioms propext/Classical.choice/Quot.sound 
               "id sequences thorough); harness, drivers, orchestrator. Hypotheses: messages and snapshot are genuine in the stated sense (the venue's contract; "
               "trichotomy and admitted_chain need none); futures no_false_alarm needs the delivery to contain the message covering the snapshot id (the published "
               "rule rejects a start at pu = s); distinct instrument keys per connection; that the terminal error leads to re-initialisation and a Reconnecting notice "
-              "is C12's statement. no_false_alarm is stated for one instrument (Local.run); for interleaved instruments it follows per instrument only through "
-              "connection_book_is_truth/told_iff, not as a separate connection-level theorem. Exact rationals; u64 overflow and timestamps not modelled."
+              "is C12's statement. Snapshot depth: with the limit=100 snapshots of the real wiring the 'book = venue book' clause is decided PER PRICE LEVEL (covered by the "
+              "snapshot, written by an admitted update, or changed by the venue since - book_is_truth_on), not for the whole book; the whole-book theorems need a "
+              "snapshot that cuts nothing (<= 100 levels per side); the oracle follows this reading (`lv` lines for depth-limited cases, silent at the other prices). "
+              "no_false_alarm is stated for one instrument (Local.run) and, since the first review, for interleaved instruments as no_false_alarm_conn. "
+              "Definitional / bookkeeping (not results): genuineSnapshot_is_on_everything, connSynced_is_on_everything, connSyncedOn_reading, start_synced, the "
+              "exDeep_book_at_2 evaluation. Exact rationals; u64 overflow and timestamps not modelled."
               " Additionally tied by translation: the sequencer step functions (new, is_first_update, validate_first_update, validate_next_update, validate_sequence of "
               "both Binance*OrderBookL2Sequencer impls, with DataError::InvalidSequence and the u64 fields of the update structs) are regenerated as Lean state-passing "
               "functions from the current source on every run (tools/rust2lean_sm.py) and proved equal to the model's for all states and updates "
